@@ -129,6 +129,12 @@ fn analyse_state(
                 .build()
                 .optimise_state(opt_state)
         })
+        .map(|replica| {
+            // Report the score of each replica so the selection of the best can be verified
+            #[cfg(feature = "verif-hooks")]
+            eprintln!("VERIF-REPLICA score={:?}", replica.score());
+            replica
+        })
         .max()
         .ok_or_else(|| anyhow!("Error in running optimisation."))?;
 
